@@ -19,7 +19,7 @@ S_SHAPES = ['two', 'text_twice', 'foreign', 'root']
 GROUPS = [
     dict(name='det_stanza', harness='det_stanza.cpp', tus=_b.STANZA_TUS, models=DET_MODELS,
          instances=[D('det_error_' + n, 'h_det_error', k, ERR_BOUND % n) for k, n in enumerate(ERR_SHAPES)]
-                   + [D('detfix_error_' + n, 'h_detfix_error', k, ERR_BOUND % n, tiers=('thorough',)) for k, n in enumerate(ERR_SHAPES)]
+                   + [D('detfix_error_' + n, 'h_detfix_error', k, ERR_BOUND % n, tiers=(('thorough',) if n == 'ftl' else ('manual',))) for k, n in enumerate(ERR_SHAPES)]   # only ftl was measured (231 s / 3.1 GB)
                    + [D('det_iq_' + k, 'h_det_iq', v, IQ_BOUND % k, dom=6) for k, v in _b.IQ_SHAPES.items()]
                    + [D('det_iq_' + k, 'h_det_iq', v, IQ_BOUND % k, dom=6) for k, v in _b.IQ_ERR_SHAPES.items()]
                    + [D('det_iqa_' + k, 'h_det_iqa', v, IQ_BOUND % k, dom=6) for k, v in list(_b.IQA_SHAPES.items()) + list(_b.IQA_VALID_SHAPES.items()) + list(_b.IQA_ERR_SHAPES.items())]
@@ -69,3 +69,7 @@ DET_MANUAL = ('det_features_empty', 'fix_features_empty', 'det_stream_error_two'
 for _g in GROUPS:
     for _i in _g['instances']:
         _i['tiers'] = ('manual',) if _i['name'] in DET_MANUAL else (('quick', 'thorough') if _i['name'] in DET_QUICK else ('thorough',))
+# (session 3, last) only detfix_error_ftl was measured (231 s / 3.1 GB); the other two-pass error shapes are kept but not run
+for _g in GROUPS:
+    for _i in _g['instances']:
+        if _i['name'].startswith('detfix_error_') and _i['name'] != 'detfix_error_ftl': _i['tiers'] = ('manual',)
